@@ -112,6 +112,12 @@ impl Visitor<Diagnostic> for SymbolTable<'_, Id, DummyNode> {
         node.recurse_visit(self)
     }
 
+    fn visit_edge_var_decl(&mut self, node: &EdgeVarDecl) -> Result<Self::Value, Diagnostic> {
+        // An edge-detecting input (R_EDGE / F_EDGE) is a declared variable
+        self.add(&node.identifier, DummyNode {});
+        node.recurse_visit(self)
+    }
+
     fn visit_named_variable(
         &mut self,
         node: &ironplc_dsl::textual::NamedVariable,
